@@ -102,5 +102,7 @@ Truth(i) == IF Lookup(TrueStk(i-1), Len(TrueStk(i-1)), prog[i].n) = "type" THEN 
 
 ClassCorrect == phase = "run" => \A i \in 1..lx : (prog[i].k = "use" /\ cls[i] # "none") => cls[i] = Truth(i)
 \* the mechanism's table equals the truth whenever the parser has caught up with the lexer
-TableCorrect == (phase = "run" /\ px = lx) => stk = TrueStk(lx)
+\* (and no declaration is in flight: the standard binds at the declarator, the mechanism at the ';')
+TableCorrect == (phase = "run" /\ px = lx /\ (IF lx = 0 THEN TRUE ELSE prog[lx].k \notin {"td", "obj", "name"}))
+                   => stk = TrueStk(lx)
 =============================================================================
